@@ -1,6 +1,9 @@
 import Pcore.Proofs.Parse
+import Pcore.Proofs.Resolve
 import Pcore.Proofs.LexLoops
+import Pcore.Proofs.CoreNames
 import Pcore.Generated.LexLoops
+import Pcore.Generated.CoreTypes
 /-!
 # C06 — The parser is total: it terminates and fails only with located parse errors
 
@@ -36,9 +39,27 @@ Full statement / proved / missing
                                    reader counts the newline as column 1 of the next line and bumps the column once when
                                    it is asked for a symbol at the end, hence `+ 2`; columns are natural numbers — the
                                    implementation clamps at 0 since fix 153f591.)
-* missing: resolution totality (`Context.ParseType` returns a type or a reported error) is NOT a theorem here: the
-  positional creators of all ~40 types are not modelled.  It is checked on the implementation only (direct predicate of
-  harness/c06 over every type name × every argument list of length ≤ 2 over 29 argument kinds, plus samples).
+* resolution                     — `Model/Resolve.lean`: the resolver's decision structure `resolveR : Expr → ok type |
+                                   reported issue-code | outside | fault`, for the 22 parameterized core types of the C05
+                                   fragment, the parameterless ones, unknown names and second spellings: which issue code
+                                   each positional creator reports for arguments it refuses, in the implementation's order of
+                                   evaluation (parameters first, left to right, depth first; then the creator's own tests);
+                                   `newEnumType3` statement by statement with its self-sized slice (`enums[idx] = …`,
+                                   `enums[:idx]`) as explicit fault sites.
+                                   `C06_resolve_total`: NO fault result is reachable, for every expression and every oracle
+                                   (in particular the index arithmetic of the Enum creator stays in range:
+                                   `C06_enum_index_in_range`, and the recursion of the creators through nested array
+                                   arguments ends); `C06_parse_type_outcome`: `Context.ParseType` on any input is a type, a
+                                   reported issue, a located parse error, or outside the model — never a fault.
+                                   `C06_resolve_agrees`: the accepting half is exactly the creator model of C05
+                                   (`resolve`), so every type this resolver returns is the one whose print/parse round trip
+                                   C05 proves; `C06_enum_low_agrees`: the statement-level Enum creator computes `enumArgs` +
+                                   `NewEnumType`.  Arity lemmas per type name: `C06_arity_*`, `C06_not_parameterized`,
+                                   `C06_unknown_name`, `C06_non_type`.
+                                   `outside` (no claim): constructor calls, `Init[…]`, `Like`, `Object[…]`, `TypeSet[…]`,
+                                   `Timespan/Timestamp/SemVer/SemVerRange/URI[…]`, names the loader may know, `type X = …`,
+                                   non-ASCII Enum values — for these the property is checked on the implementation only
+                                   (direct predicate of harness/c06: type or reported error, never a Go fault).
 * not provable in this model: stack exhaustion on very deep nestings (a resource of the Go runtime).
 -/
 namespace Pcore.Syntax
@@ -127,6 +148,205 @@ example : loopOK { fn := "consumeUnsignedInteger", kind := .peek, arms := [
   decide
 open Pcore.LexLoops in
 example : (Pcore.Generated.lexLoops.filter fun l => l.arms.any fun a => a.outs.any isLoopOut).length ≥ 8 := by decide
+
+/-! ### resolution -/
+
+/-- **resolution is total**: no fault result is reachable from any parsed expression -/
+theorem C06_resolve_total (env : Env) (e : Expr) (k : RFault) : resolveR env e ≠ .fault k := by
+  unfold resolveR
+  split
+  · simp
+  · exact evalR_no_fault env k e
+
+/-- the statement-level model of `newEnumType3`: every index it writes and every bound it re-slices to lies within the
+    slice it sized itself, whatever the arguments -/
+theorem C06_enum_index_in_range (l : List Arg) (k : RFault) :
+    enumLoop l.length l 0 (List.replicate l.length []) false ≠ .fault k :=
+  enumLoop_no_fault l.length l 0 _ false (by simp) (fun _ => by simp) k
+
+/-- … and it computes what the creator model of C05 computes -/
+theorem C06_enum_low_agrees (args : List Arg) :
+    enumLow (argDepth (.arr args) + 1) args =
+      match enumArgs (argDepth (.arr args) + 1) args with
+      | some (vs, f) => enumLow.fin vs f
+      | none => .reported .argType :=
+  enumLow_spec _ args (by omega)
+
+/-- the accepting half of the resolver is the creator model whose print/parse round trip C05 proves -/
+theorem C06_resolve_agrees (env : Env) (e : Expr) (t : Ty) (h : e.outsideB env = false) :
+    resolveR env e = .ok t ↔ resolve env e = some t := by
+  unfold resolveR
+  simp only [h, Bool.false_eq_true, if_false]
+  exact evalR_ok env e t
+
+/-- `Context.ParseType(text)`: a type, a reported issue, a located parse error, or outside the model -/
+theorem C06_parse_type_outcome (env : Env) (inp : List Sym) : parseTypeR env inp ≠ .fault := by
+  unfold parseTypeR
+  have h1 := C06_no_fault env inp
+  have h2 := C06_terminates env inp
+  cases hp : parse env inp with
+  | value e =>
+    simp only
+    cases hr : resolveR env e with
+    | fault k => exact absurd hr (C06_resolve_total env e k)
+    | _ => simp
+  | parseError l c => simp
+  | fault => exact absurd hp h1
+  | nofuel => exact absurd hp h2
+
+/-! #### arity and kind of parameters, per type name -/
+
+/-- an expression that is not a type expression: `PCORE_FAILURE` -/
+theorem C06_non_type (env : Env) (e : Expr) (h : ∀ n ps, e ≠ .dtype n ps) : evalR env e = .reported .failure := by
+  cases e with
+  | dtype n ps => exact absurd rfl (h n ps)
+  | _ => simp [evalR]
+
+/-- a core type without a positional creator refuses every parameter list -/
+theorem C06_not_parameterized (env : Env) (n : Str) (args : List Arg) (h : n ∈ notParamNames) :
+    createR env n args = .reported .notParam := by
+  have : ∀ m ∈ notParamNames, kindOf (canonName m) = none ∧ plainNames.contains (canonName m) = true ∧
+      notParamNames.contains (canonName m) = true := by decide
+  obtain ⟨h1, h2, h3⟩ := this n h
+  have h2' : canonName n ∈ plainNames := by simpa using h2
+  have h3' : canonName n ∈ notParamNames := by simpa using h3
+  simp [createR, h1, h2', h3']
+
+/-- an unknown name is a TypeReference to itself; with parameters it takes those of `TypeReference` -/
+theorem C06_unknown_name (env : Env) (n : Str) (hk : kindOf (canonName n) = none)
+    (hp : canonName n ∉ plainNames) (hc : canonName n ∉ coreOther) (hu : env.unknown n = true) :
+    evalR env (.dtype n none) = .ok (.typeRef n) ∧
+    ∀ args, createR env n args = createKR env .typeRef args := by
+  constructor
+  · simp [evalR, nameR, resolveName, hk, hp, hc, hu]
+  · intro args; simp [createR, hk, hp, hc, hu]
+
+theorem C06_arity_wrap (env : Env) (k : WrapKind) (a b : Arg) (rest : List Arg) :
+    createKR env (.wrap k) (a :: b :: rest) = .reported .argCount := by
+  simp [createKR, createK, wrapOf, diagK]
+
+theorem C06_arity_boolean (env : Env) (a b : Arg) (rest : List Arg) :
+    createKR env .boolean (a :: b :: rest) = .reported .argCount := by
+  simp [createKR, createK, diagK]
+
+theorem C06_arity_regexp (env : Env) (a b : Arg) (rest : List Arg) :
+    createKR env .regexp (a :: b :: rest) = .reported .argCount := by
+  simp [createKR, createK, diagK]
+
+theorem C06_arity_typeRef (env : Env) (a b : Arg) (rest : List Arg) :
+    createKR env .typeRef (a :: b :: rest) = .reported .argCount := by
+  simp [createKR, createK, typeRefCreate, diagK]
+
+theorem C06_arity_collection (env : Env) (a b c : Arg) (rest : List Arg) :
+    createKR env .collection (a :: b :: c :: rest) = .reported .argCount := by
+  simp [createKR, createK, diagK]
+
+theorem C06_arity_string (env : Env) (a b c : Arg) (rest : List Arg) :
+    createKR env .string (a :: b :: c :: rest) = .reported .argCount := by
+  simp [createKR, createK, diagK]
+
+/-- Integer: the first argument is looked at before the count -/
+theorem C06_arity_integer (env : Env) (a b c : Arg) (rest : List Arg) :
+    createKR env .integer (a :: b :: c :: rest) = .reported (if a.isIntOrD then .argCount else .argType) := by
+  by_cases h : a.isIntOrD = true <;> simp [createKR, createK, diagK, h]
+
+theorem C06_arity_float (env : Env) (a b c : Arg) (rest : List Arg) :
+    createKR env .float (a :: b :: c :: rest) = .reported (if a.isFloatOrD then .argCount else .argType) := by
+  by_cases h : a.isFloatOrD = true <;> simp [createKR, createK, diagK, h]
+
+theorem C06_arity_runtime (env : Env) (a b c d : Arg) (rest : List Arg) :
+    createKR env .runtime (a :: b :: c :: d :: rest) = .reported .argCount := by
+  simp [createKR, createK, runtimeCreate, diagK]
+
+theorem C06_arity_hash_one (env : Env) (a : Arg) : createKR env .hash [a] = .reported .argCount := by
+  simp [createKR, createK, diagK]
+
+theorem C06_arity_hash_many (env : Env) (a b c d e : Arg) (rest : List Arg) :
+    createKR env .hash (a :: b :: c :: d :: e :: rest) = .reported .argCount := by
+  simp [createKR, createK, diagK]
+
+/-- Array: at most an element type and two size arguments -/
+theorem C06_arity_array (env : Env) (a b c : Arg) (rest : List Arg) (h : ∀ t, a ≠ .ty t) :
+    createKR env .array (a :: b :: c :: rest) = .reported .argCount := by
+  cases a with
+  | ty t => exact absurd rfl (h t)
+  | _ => simp [createKR, createK, diagK]
+
+theorem C06_arity_array_typed (env : Env) (t : Ty) (a b c : Arg) (rest : List Arg) :
+    createKR env .array (.ty t :: a :: b :: c :: rest) = .reported .argCount := by
+  simp [createKR, createK, diagK]
+
+/-! #### second tie: the table of core type names, regenerated from `types/zinit.go` -/
+
+/-- the model's classification of core type names (`kindOf`, `plainNames`, `coreOther`, `spellings`) agrees with the table
+    `coreTypes` of the code as it is now: every name of the table is classified and bound to the default constructor of its
+    canonical name, and the model classifies no core name that the table lacks -/
+theorem C06_core_names : coreTableOK Pcore.Generated.coreTypes = true := by decide +kernel
+
+/-- hence no name of `coreTypes` is ever taken for an unknown name (a TypeReference through the loader), whatever the
+    context knows; proved for ANY table that satisfies the side condition -/
+theorem C06_core_names_not_loaded (env : Env) (u : Str → Bool) (n c : String) (h : (n, c) ∈ Pcore.Generated.coreTypes) :
+    resolveName env n.toList = resolveName { env with unknown := u } n.toList :=
+  classified_not_loaded env u n.toList (coreTable_known _ C06_core_names n c h)
+
+example : ("Notundef", "DefaultNotUndefType") ∈ Pcore.Generated.coreTypes := by decide
+/-- a table with a name the model does not classify, or a spelling bound to another type, is rejected -/
+example : coreTableOK (Pcore.Generated.coreTypes ++ [("Newtype", "DefaultNewtypeType")]) = false := by decide +kernel
+example : coreTableOK (Pcore.Generated.coreTypes.map fun r => if r.1 = "Uri" then ("Uri", "DefaultStringType") else r) = false := by
+  decide +kernel
+example : coreTableOK (Pcore.Generated.coreTypes.filter fun r => r.1 != "Typeset") = false := by decide +kernel
+
+/-! #### non-vacuity of the resolution theorems -/
+
+/-- an oracle for examples: `Foo` is an unknown name -/
+def envR : Env :=
+  { isLetter := fun c => isUpper c || isLower c, rxOK := fun s => s ≠ ['('], pf := fun _ => none,
+    unknown := fun n => n = "Foo".toList }
+
+/-- `Enum[['a', true], 'b']` (the input of seeded change C06-s10: a flag inside the array form followed by a string) is
+    refused with ILLEGAL_ARGUMENT_TYPE — the Boolean is not the last argument of the flattened list -/
+def enumMisplacedFlag : Expr := .dtype "Enum".toList (some [.arr [.str ['a'], .bool true], .str ['b']])
+example : enumMisplacedFlag.outsideB envR = false := by decide +kernel
+example : (match resolveR envR enumMisplacedFlag with | .reported .argType => true | _ => false) = true := by decide +kernel
+/-- accepted forms: `Enum[['a', 'B'], true]`, `Callable[[String], Integer[1, 2]]`, `Foo`, `Notundef['x']` -/
+example : (match resolveR envR (.dtype "Enum".toList (some [.arr [.str ['a'], .str ['B']], .bool true])) with
+    | .ok (.enum [['a'], ['b']] true) => true | _ => false) = true := by decide +kernel
+example : (match resolveR envR (.dtype "Callable".toList (some [.arr [.dtype "String".toList none],
+      .dtype "Integer".toList (some [.int 1, .int 2])])) with
+    | .ok (.callable (some ([.named _], none)) (some (.int 1 2)) none) => true | _ => false) = true := by decide +kernel
+example : (match resolveR envR (.dtype "Foo".toList none) with | .ok (.typeRef _) => true | _ => false) = true := by
+  decide +kernel
+example : (match resolveR envR (.dtype "Notundef".toList (some [.str ['x']])) with
+    | .ok (.wrap .notUndef (.strVal ['x'])) => true | _ => false) = true := by decide +kernel
+/-- every issue code is reachable: count, type, range, regexp, go runtime, not parameterized, not a type; the first
+    failing PARAMETER wins over the creator's own refusal -/
+example : (match resolveR envR (.dtype "Integer".toList (some [.int 1, .int 2, .int 3])) with
+    | .reported .argCount => true | _ => false) = true := by decide +kernel
+example : (match resolveR envR (.dtype "Integer".toList (some [.str ['a'], .int 2, .int 3])) with
+    | .reported .argType => true | _ => false) = true := by decide +kernel
+example : (match resolveR envR (.dtype "Integer".toList (some [.int 2, .int 1])) with
+    | .reported .args => true | _ => false) = true := by decide +kernel
+example : (match resolveR envR (.dtype "Pattern".toList (some [.str ['a'], .str ['('], .int 1])) with
+    | .reported .invalidRegexp => true | _ => false) = true := by decide +kernel
+example : (match resolveR envR (.dtype "Runtime".toList (some [.str ['g', 'o'], .str ['x']])) with
+    | .reported .goRuntime => true | _ => false) = true := by decide +kernel
+example : (match resolveR envR (.dtype "Any".toList (some [.int 1])) with
+    | .reported .notParam => true | _ => false) = true := by decide +kernel
+example : (match resolveR envR (.int 1) with | .reported .failure => true | _ => false) = true := by decide +kernel
+example : (match resolveR envR (.dtype "Any".toList (some [.dtype "Integer".toList (some [.int 2, .int 1])])) with
+    | .reported .args => true | _ => false) = true := by decide +kernel
+/-- outside the model: a constructor call, `Init[…]`, a name the loader may know -/
+example : (match resolveR envR (.dtype "Array".toList (some [.call (some ['n', 'e', 'w']) [.str ['F']]])) with
+    | .outside => true | _ => false) = true := by decide +kernel
+example : (match resolveR envR (.dtype "Init".toList (some [.dtype "String".toList none])) with
+    | .outside => true | _ => false) = true := by decide +kernel
+example : (match resolveR envR (.dtype "Bar".toList none) with | .outside => true | _ => false) = true := by decide +kernel
+/-- hypotheses of the lemmas above are satisfiable -/
+example : "Any".toList ∈ notParamNames := by decide
+example : kindOf (canonName "Foo".toList) = none ∧ canonName "Foo".toList ∉ plainNames ∧
+    canonName "Foo".toList ∉ coreOther ∧ envR.unknown "Foo".toList = true := by decide
+example : ∀ t, Arg.int 1 ≠ .ty t := by intro t; simp
+example : ∀ n ps, Expr.int 1 ≠ .dtype n ps := by intro n ps; simp
 
 /-! ### non-vacuity: the inputs that broke the original code, on the model of the code as it is now -/
 
